@@ -91,6 +91,12 @@ def enumerate_ops(m, mi):
         elif k.startswith('repeated_') and k.endswith('_property') or k in ('repeated_raw_meta_item_property', 'repeated_meta_item_property'):
             try: ln = len(cur)
             except Exception: continue
+            if is_mapping(cur):
+                for i in sorted({0, ln - 1}):
+                    if 0 <= i < ln: ops += [(mi, n, 'setkey', i), (mi, n, 'delkey', i), (mi, n, 'popkey', i)]
+                ops += [(mi, n, 'setkey-new', 0), (mi, n, 'delkey-missing', 0)]
+                continue
+            if n.endswith('_with_comments'): ops += [(mi, n, 'ins-comment', 0), (mi, n, 'ins-comment', ln)]
             for i in sorted({0, 1, ln - 1, ln, -1}):
                 if -ln <= i <= ln: ops.append((mi, n, 'ins', i))
                 if -ln <= i < ln:
@@ -156,6 +162,18 @@ def apply_op(f, op):
         dv = pick_donor_item(m, n, j)
         if dv is None: raise Refused('no donor item')
         return dv
+    if action in ('setkey', 'delkey', 'popkey', 'setkey-new', 'delkey-missing'):
+        keys = list(view.keys())
+        if action == 'setkey-new':
+            view['zznew'] = mapping_value(view, m, n); return m, ('list', n)
+        if action == 'delkey-missing':
+            del view['zzmissing']; raise AssertionError('C19: deleting a missing key was accepted')
+        key = keys[arg]
+        if action == 'setkey': view[key] = mapping_value(view, m, n, key); return m, ('key', n, key)
+        if action == 'delkey': del view[key]; return m, ('key', n, key)
+        view.pop(key); return m, ('key', n, key)
+    if action == 'ins-comment':
+        view.insert(arg, models.BlockComment.from_value('inserted', indent='    ' if type(m).__name__ != 'File' else '')); return m, ('list', n)
     if action == 'ins': view.insert(arg, item()); return m, ('list', n)
     if action == 'pop': view.pop(arg); return m, ('list', n)
     if action == 'setitem': view[arg] = item(); return m, ('list', n)
@@ -172,6 +190,13 @@ def apply_op(f, op):
         view.insert(0, dview[0])
         raise AssertionError('C19: an item attached to another document was accepted')
     raise Refused(f'unknown action {action}')
+
+
+def mapping_value(view, m, n, key=None):
+    """raw mapping views take MetaItem nodes, value views take plain values"""
+    if n.startswith('raw_'):
+        return models.MetaItem.from_value(key or 'zznew', 'replaced', indent='    ')
+    return 'replaced'
 
 
 def is_mapping(v):
@@ -235,11 +260,21 @@ def check_after(prop, f, m, snap, opinfo, changed_child_ids):
         # only the child itself may change: among the children that were there before, at most ONE may print differently
         # (the one the property denotes - e.g. the Date behind `.date`, the cost behind `number_per`); with a node-level add/remove none may
         diff = []
+        if opinfo[0] == 'key':
+            # a key-addressed operation may touch the item with that key only: every other pre-existing meta item keeps its text and stays in the document
+            for c, t in snap['kids']:
+                if type(c).__name__ == 'MetaItem' and getattr(c, 'key', None) != opinfo[2]:
+                    still = [x for x in tree.real_children(m) if x is c]
+                    if not still: return f'C03: {opinfo[1]}[{opinfo[2]!r}] removed the sibling item {t!r}'
+                    if tree.model_text(c) != t: return f'C03: {opinfo[1]}[{opinfo[2]!r}] changed the sibling item {t!r} -> {tree.model_text(c)!r}'
+            keys_now = [getattr(c, 'key', None) for c in tree.real_children(m) if type(c).__name__ == 'MetaItem']
+            if len(keys_now) != len(set(keys_now)) and len({k_ for _, k_ in [(0, 0)]}) and len([c for c, t in snap['kids'] if type(c).__name__ == 'MetaItem']) == len({getattr(c, 'key', None) for c, t in snap['kids'] if type(c).__name__ == 'MetaItem'}):
+                return f'C03: {opinfo[1]}[{opinfo[2]!r}] left a duplicated key: {keys_now}'
         for c, t in snap['kids']:
             if id(c) in changed_child_ids: continue
             still = [x for x in tree.real_children(m) if x is c]
             if still and tree.model_text(c) != t: diff.append(f'{type(c).__name__} {t!r} -> {tree.model_text(c)!r}')
-        allowed = 1 if opinfo[0] in ('val', 'list') and not changed_child_ids else 0
+        allowed = 1 if opinfo[0] in ('val', 'list', 'key') and not changed_child_ids else 0
         if opinfo[0] == 'list' and not changed_child_ids: allowed = 1
         if len(diff) > allowed: return f'C03: sibling text changed: {diff[:3]}'
     if prop == 'C06':
@@ -346,8 +381,8 @@ def run(prop, tier, seed):
     if tier == 'quick':
         docs = [d for d in docs if '+lead' not in d[0]]
     cases = list(all_single_ops(docs))
-    if tier == 'quick' and len(cases) > 6000:
-        rnd.shuffle(cases); cases = cases[:6000]
+    if tier == 'quick' and len(cases) > 4500:
+        rnd.shuffle(cases); cases = cases[:4500]
     for name, op in cases:
         try:
             msg, status = run_case(prop, name, [op])
@@ -365,8 +400,13 @@ def run(prop, tier, seed):
             for n1 in rp:
                 for n2 in rp:
                     if n1 == n2: continue
-                    for a1 in (('ins', 0), ('pop', 0), ('ins', 1)):
-                        for a2 in (('pop', 1), ('setitem', 1), ('pop', -1), ('setitem', 0), ('ins', 1)):
+                    try: map2 = is_mapping(getattr(m, n2)); map1 = is_mapping(getattr(m, n1))
+                    except Exception: continue
+                    acts1 = (('ins-comment', 0),) if n1.endswith('_with_comments') else ()
+                    acts1 += (('ins', 0), ('pop', 0), ('ins', 1)) if not map1 else (('delkey', 0),)
+                    acts2 = (('pop', 1), ('setitem', 1), ('pop', -1), ('setitem', 0), ('ins', 1)) if not map2 else (('setkey', 0), ('setkey', 1), ('delkey', 1), ('popkey', 0))
+                    for a1 in acts1:
+                        for a2 in acts2:
                             hist = [(mi, n1) + a1, (mi, n2) + a2]
                             try: msg, status = run_case(prop, name, hist)
                             except Exception: msg, status = 'driver error: ' + traceback.format_exc()[-600:], 'fail'
